@@ -21,7 +21,8 @@ KNOWN_DIFFERENT = {
 }
 
 
-def parse(toks):
+def parse(toks, roles=False):
+    """token stream -> tree; roles=True keeps the role of every field (writer comparison)"""
     pos = [0]
 
     def ty():
@@ -72,8 +73,10 @@ def parse(toks):
             if t == "f":
                 i = toks[pos[0]]
                 role = toks[pos[0] + 1]
-                pos[0] += 3 if role == "c" else 2
-                out.append(("f", i, ty()))
+                if role == "c":
+                    role = "c" + toks[pos[0] + 2]
+                pos[0] += 3 if role[0] == "c" else 2
+                out.append(("f", i, role, ty()) if roles else ("f", i, ty()))
             elif t == "fe":
                 i = toks[pos[0]]
                 pos[0] += 1
@@ -102,6 +105,49 @@ def holds(c, x):
     return any(int(m) & x for m in c[1])
 
 
+def fill(w, s):
+    """ids the writer does not name (`self.as_int()` of an enum container, `self.size()`): taken from the READER program at the same position"""
+    if isinstance(w, tuple) and isinstance(s, tuple):
+        if w and s and w[0] == "f" and s[0] == "f" and len(w) == 4 and len(s) == 3:
+            return ("f", s[1] if w[1] == "?" else w[1], w[2], fill(w[3], s[2]))
+        if len(w) == len(s):
+            return tuple(fill(x, y) for x, y in zip(w, s))
+        return w
+    return s if w == "?" else w
+
+
+def untree(ms):
+    """tree (with roles) -> tokens"""
+    out = []
+
+    def ty(t):
+        if t[0] == "int":
+            return ["int", t[1], t[2]]
+        if t[0] in ("bool", "lvl", "prim"):
+            return [t[0], t[1]]
+        if t[0] == "enum":
+            return ["enum", t[1], t[2], str(len(t[3]))] + list(t[3])
+        if t[0] == "struct":
+            return ["struct"] + untree(t[1]) + ["end"]
+        if t[0] in ("arrf", "arrv"):
+            return [t[0], t[1]] + ty(t[2])
+        return [t[0]]
+    for m in ms:
+        if m[0] == "f":
+            role = [m[2]] if m[2][0] != "c" else ["c", m[2][1:]]
+            out += ["f", m[1]] + role + ty(m[3])
+        elif m[0] == "fe":
+            out += ["fe", m[1]] + ty(m[2])
+        elif m[0] == "opt":
+            out += ["opt"] + untree(m[1]) + ["end"]
+        else:
+            out += ["if", m[1], str(len(m[2]))]
+            for c, b in m[2]:
+                out += ([c[0], c[1]] if c[0] == "ne" else [c[0], str(len(c[1]))] + list(c[1])) + untree(b) + ["end"]
+            out += untree(m[3]) + ["end"]
+    return out
+
+
 def bound(ms):
     out = []
     for m in ms:
@@ -122,9 +168,11 @@ def expand(ms, dom):
     dom = dict(dom)
     for m in ms:
         if m[0] == "f":
-            t = expty(m[2])
-            out.append(("f", m[1], t))
-            if t[0] == "enum":
+            t = expty(m[-1])
+            out.append(m[:-1] + (t,))
+            if len(m) == 4 and m[2] == "s":
+                dom.pop(m[1], None)
+            elif t[0] == "enum":
                 dom[m[1]] = [int(v) for v in t[3]]
             else:
                 dom.pop(m[1], None)
@@ -194,39 +242,55 @@ def mentions(x, word):
 
 
 def compute():
-    """-> dict(pairs=[...], counts) ; every pair: ctx, name, status in same/differ/spec-unsupported/rust-untranslated, detail"""
+    """-> pairs: one per (version-expanded message, side) with side in reader / writer; status same / differ / spec-unsupported /
+    rust-untranslated / no-reader / no-definition, detail"""
     import codec_spec, rust_codec
     r = codec_spec.NameResolver()
     spec = {}
     for c in r.spec_containers():
         spec[(c["key"].split(":")[0], c["name"])] = c
-    rust = {}
+    tr = rust_codec.Translator()
+    rust_r, rust_w = {}, {}
     for d in rust_codec.translate_all():
-        rust.setdefault((d["ctx"], d["rust_type"]), d)
+        rust_r.setdefault((d["ctx"], d["rust_type"]), d)
+    for d in rust_codec.translate_all_writers(tr):
+        rust_w.setdefault((d["ctx"], d["rust_type"]), d)
     lines, pairs = [], []
     for k, c in sorted(spec.items()):
-        rd = rust.get(k)
-        p = {"ctx": k[0], "name": k[1], "key": c["key"], "wowm": f"{os.path.relpath(c['file'], REPO)}:{c['line']}", "rust_file": rd["file"] if rd else None}
-        if rd is None:
-            p.update(status="no-reader", detail="no generated Rust type found for this message")
-        elif "tokens" not in c:
-            p.update(status="spec-unsupported", detail=c["unsupported"])
-        elif "tokens" not in rd:
-            p.update(status="rust-untranslated", detail=rd["untranslated"])
-        else:
+        if "tokens" in c:
             lines.append(f"container S|{c['key']} {c['opcode']} {' '.join(c['tokens'])}")
-            lines.append(f"container R|{c['key']} {c['opcode']} {' '.join(rd['tokens'])}")
-            p.update(status="?", spec_tokens=c["tokens"], rust_tokens=rd["tokens"])
-        pairs.append(p)
-    for k in rust:
+        for side, table in (("reader", rust_r), ("writer", rust_w)):
+            rd = table.get(k)
+            p = {"side": side, "ctx": k[0], "name": k[1], "key": c["key"], "wowm": f"{os.path.relpath(c['file'], REPO)}:{c['line']}", "rust_file": rd["file"] if rd else None}
+            if rd is None:
+                p.update(status="no-reader", detail=f"no generated Rust type found for this message")
+            elif "tokens" not in c:
+                p.update(status="spec-unsupported", detail=c["unsupported"])
+            elif "tokens" not in rd:
+                p.update(status="rust-untranslated", detail=rd["untranslated"])
+            else:
+                toks = rd["tokens"]
+                if side == "writer" and "?" in toks:
+                    rr = rust_r.get(k)
+                    if rr and "tokens" in rr:
+                        try:
+                            toks = untree(fill(parse(toks, roles=True), parse(rr["tokens"]))) + ["end"]
+                        except Exception:
+                            pass
+                    toks = [("0" if t == "?" else t) for t in toks]
+                tag = "R" if side == "reader" else "W"
+                lines.append(f"container {tag}|{c['key']} {c['opcode']} {' '.join(toks)}")
+                p.update(status="?", spec_tokens=c["tokens"], rust_tokens=toks)
+            pairs.append(p)
+    for k in rust_r:
         if k not in spec:
-            pairs.append({"ctx": k[0], "name": k[1], "key": None, "rust_file": rust[k]["file"], "status": "no-definition", "detail": "generated reader without a wowm message of this name / version"})
+            pairs.append({"side": "reader", "ctx": k[0], "name": k[1], "key": None, "rust_file": rust_r[k]["file"], "status": "no-definition", "detail": "generated reader without a wowm message of this name / version"})
     with open(TIE_PATH, "w") as f:
         f.write("\n".join(lines) + "\n")
     d = semcorr.Driver()
     d.ask(f"load {TIE_PATH}")
     todo = [p for p in pairs if p["status"] == "?"]
-    ans = d.ask_many([f"progeq S|{p['key']} R|{p['key']}" for p in todo])
+    ans = d.ask_many([f"progeq {'r' if p['side'] == 'reader' else 'w'} S|{p['key']} {'R' if p['side'] == 'reader' else 'W'}|{p['key']}" for p in todo])
     d.close()
     for p, a in zip(todo, ans):
         if a.startswith("same"):
@@ -236,14 +300,15 @@ def compute():
         else:
             p["status"] = "differ"
             try:
-                sp = expand(parse(p["spec_tokens"]), {})
-                ru = parse(p["rust_tokens"])
+                roles = p["side"] == "writer"
+                sp = expand(parse(p["spec_tokens"], roles=roles), {})
+                ru = parse(p["rust_tokens"], roles=roles)
                 fd = firstdiff(sp, ru)
                 if fd is None:
                     p["detail"] = f"driver: {a}; the python rendering of the normal form sees no difference (normaliser mismatch)"
                     p["diff"] = None
                 else:
-                    p["detail"] = f"at {fd[0] or '/'}: the definition says {short(fd[1])}, the reader does {short(fd[2])}"
+                    p["detail"] = f"at {fd[0] or '/'}: the definition says {short(fd[1])}, the {p['side']} does {short(fd[2])}"
                     p["diff"] = fd
             except Exception as ex:
                 p["detail"] = f"driver: {a}; ({ex})"
@@ -270,6 +335,8 @@ def report(rep, pid, pairs):
     """add the tie's obligations to a Report; only the violations that concern `pid` are raised there (C01 raises all that are not C04's)"""
     n_same = sum(1 for p in pairs if p["status"] == "same")
     n_wf = sum(1 for p in pairs if p["status"] == "same" and p.get("wf"))
+    both = collections.Counter((p["ctx"], p["name"]) for p in pairs if p["status"] == "same" and p.get("wf"))
+    n_rt = sum(1 for v in both.values() if v == 2)
     outside = collections.Counter()
     raised = 0
     for p in pairs:
@@ -279,24 +346,34 @@ def report(rep, pid, pairs):
         if p["status"] == "spec-unsupported":
             outside["definition outside the closed syntax: " + p["detail"][:40]] += 1
             continue
-        if p["status"] == "rust-untranslated" and ("ZlibDecoder" in p["detail"] or "SKIP_SERIALIZE_READ_PANIC" in p["detail"]):
-            outside["reader outside the translated subset: " + ("compressed" if "Zlib" in p["detail"] else "AddonArray placeholder (C03 known finding)")] += 1
+        if p["status"] == "rust-untranslated" and ("ZlibDecoder" in p["detail"] or "SKIP_SERIALIZE_READ_PANIC" in p["detail"] or "decompressed_size" in p["detail"] or "size_uncompressed" in p["detail"]):
+            outside[f"{p['side']} outside the translated subset: " + ("AddonArray placeholder (C03 known finding)" if "SKIP_SERIALIZE" in p["detail"] else "compressed")] += 1
             continue
         owner, kind = classify(p)
-        if owner != pid and not (pid == "C01" and owner not in ("C04",)):
+        if pid == "C03":
+            # C03 only cares about readers that leave the translated statement subset (every recognised form is a call of a util reader
+            # with `?`, a guarded allocation, a loop or a conditional — none of which can panic by itself)
+            if p["status"] != "rust-untranslated":
+                continue
+        elif owner != pid and not (pid == "C01" and owner not in ("C04",)):
             continue
-        if k in KNOWN_DIFFERENT and pid == "C01":
+        if k in KNOWN_DIFFERENT and p["side"] == "reader" and pid == "C01":
             rep.violation(KNOWN_DIFFERENT[k], f"{p['key']}: the generated reader is not the decoder of its definition: {p.get('detail', '')[:300]}",
                           {"container": p["key"], "wowm": p.get("wowm"), "rust_file": p.get("rust_file"), "difference": p.get("detail")}, no_input=True)
             continue
-        if k in KNOWN_DIFFERENT:
+        if k in KNOWN_DIFFERENT and p["side"] == "reader":
             continue
+        if pid in ("C03", "C04") and p["side"] == "writer":
+            continue          # writers are C01's (and C02's) subject
         raised += 1
-        what = {"differ": "the generated reader is not the decoder of its definition", "rust-untranslated": "the generated reader is outside the translated subset (proof obligation `readerMatches` cannot be evaluated)",
-                "no-reader": "no generated reader", "no-definition": "reader without definition"}[p["status"]]
-        rep.violation(f"{pid}/reader-tie/{p['ctx']}:{p['name']}", f"{p['key'] or p['name']} ({p.get('rust_file')}): {what}: {p.get('detail', '')[:400]}",
+        sd = p["side"]
+        what = {"differ": f"the generated {sd} is not the {'decoder' if sd == 'reader' else 'encoder'} of its definition", "rust-untranslated": f"the generated {sd} is outside the translated subset (the proof obligation `{sd}Matches` cannot be evaluated)",
+                "no-reader": "no generated type", "no-definition": "reader without definition"}[p["status"]]
+        rep.violation(f"{pid}/{sd}-tie/{p['ctx']}:{p['name']}", f"{p['key'] or p['name']} ({p.get('rust_file')}): {what}: {p.get('detail', '')[:400]}",
                       {"container": p["key"], "wowm": p.get("wowm"), "rust_file": p.get("rust_file"), "status": p["status"], "difference": p.get("detail"),
-                       "theorem": "WowVerif.Sem.readerMatches_sound / progeq (Thm/C01b.lean)", "spec_tokens": " ".join(p.get("spec_tokens", []))[:3000], "rust_tokens": " ".join(p.get("rust_tokens", []))[:3000]},
+                       "theorem": "WowVerif.Sem.readerE_decodes_as_spec / writer_encodes_as_spec via progeq (Thm/C01c.lean, Thm/C01d.lean)", "spec_tokens": " ".join(p.get("spec_tokens", []))[:3000], "rust_tokens": " ".join(p.get("rust_tokens", []))[:3000]},
                       no_input=True)
     return {"readers_compared": sum(1 for p in pairs if p["status"] in ("same", "differ")), "readers_equal_to_normal_form_of_definition": n_same,
-            "of_which_well_formed (round-trip theorem applies)": n_wf, "outside": dict(outside), "raised_here": raised}
+            "readers": sum(1 for p in pairs if p["status"] == "same" and p["side"] == "reader"), "writers": sum(1 for p in pairs if p["status"] == "same" and p["side"] == "writer"),
+            "messages_whose_writer_and_reader_both_match_a_well_formed_definition (writer_reader_roundtrip applies)": n_rt,
+            "outside": dict(outside), "raised_here": raised}
